@@ -26,9 +26,9 @@ type TwinResult struct {
 	B0, B1       *types.Block
 	Post0, Post1 *appstate.AppState
 	Receipts     types.TxReceipts
-	Included     bool   // the tx made it into B1
-	Admitted     bool   // the pool admitted it through normal validation
-	Forced       bool   // it was force-put past pool admission
+	Included     bool // the tx made it into B1
+	Admitted     bool // the pool admitted it through normal validation
+	Forced       bool // it was force-put past pool admission
 	Note         string
 }
 
@@ -220,7 +220,9 @@ func (w *World) gasSweep(r *verifutil.Rng, t *Replica, maxSeqs int, knownDest bo
 		dest := w.anyAddr(r)
 		if knownDest {
 			// a third party with an account of its own
-			v := w.pickActor(r, func(a *Actor, _ state.Identity) bool { return a != c.Owner && st.GetBalance(a.Addr).Sign() > 0 && st.GetCodeHash(a.Addr) == nil })
+			v := w.pickActor(r, func(a *Actor, _ state.Identity) bool {
+				return a != c.Owner && st.GetBalance(a.Addr).Sign() > 0 && st.GetCodeHash(a.Addr) == nil
+			})
 			if v == nil {
 				continue
 			}
